@@ -428,6 +428,72 @@ class Program:
             f.nodes[i]['op'] = mop
             f.nodes[i]['mirrored'] = True
 
+    @staticmethod
+    def ifelse_table(fn):
+        from .canon import canon
+        return [repr(canon(fn, nd['cond'])) for nd in (fn.nodes[i] for i in fn.walk())
+                if nd['k'] == 'IfStmt' and nd.get('else') is not None and nd['else'] >= 0 and nd.get('cond') is not None and nd['cond'] >= 0]
+
+    def _pin_ifelse(self, f, ent):
+        """`if (!(c)) { B } else { A }` where the pinned tree has `if (c) { A } else { B }` (same condition, branches swapped) is
+        turned back into the pinned form in the syntax tree (the CFG is left alone: its edge facts already account for `!`).
+        If-else statements are matched per condition (up to negation) in source order."""
+        pinned = list(ent.get('ifelse', []))
+        if not pinned:
+            return
+        from .canon import canon
+
+        NEG = "('u!', "
+
+        def negs(r):
+            n = 0
+            while r.startswith(NEG):
+                r = r[len(NEG):-1]
+                n += 1
+            return n, r
+        cur = []
+        for i in f.walk():
+            nd = f.nodes[i]
+            if nd['k'] == 'IfStmt' and nd.get('else') is not None and nd['else'] >= 0 and nd.get('cond') is not None and nd['cond'] >= 0:
+                cur.append((i, repr(canon(f, nd['cond']))))
+        groups_p, groups_c = {}, {}
+        for r in pinned:
+            groups_p.setdefault(negs(r)[1], []).append(r)
+        for i, r in cur:
+            groups_c.setdefault(negs(r)[1], []).append((i, r))
+        for key, seq_c in groups_c.items():
+            seq_p = groups_p.get(key)
+            if not seq_p or len(seq_p) != len(seq_c):
+                continue
+            for (i, r), want in zip(seq_c, seq_p):
+                nc, np_ = negs(r)[0], negs(want)[0]
+                if nc <= np_:
+                    continue
+                nd = f.nodes[i]
+                c0 = nd['cond']
+                x = c0
+                strip = nc - np_
+                ok = True
+                while strip > 0:
+                    while f.nodes[x]['k'] in ('ParenExpr', 'ImplicitCastExpr', 'ExprWithCleanups') and f.kids(x):
+                        x = f.kids(x)[0]
+                    xn = f.nodes[x]
+                    if not (xn['k'] == 'UnaryOperator' and xn.get('op') == '!' and f.kids(x)):
+                        ok = False
+                        break
+                    x = f.kids(x)[0]
+                    strip -= 1
+                if not ok:
+                    continue
+                # the child list is left as it is (the `!(...)` node stays the syntactic child, so parent links and the CFG's
+                # reference to it remain valid); only the named roles change
+                nd['cond'] = x
+                if (nc - np_) % 2 == 1:
+                    # only the roles are exchanged: the child list keeps source order (walk order = source order)
+                    nd['then'], nd['else'] = nd['else'], nd['then']
+                nd['inverted'] = True
+                f._parent = None
+
     def _pin_names(self):
         if Program._PIN_TABLE is None:
             path = os.path.join(build.VERIF, 'props', 'pinned_names.json')
@@ -513,6 +579,7 @@ class Program:
             ent = getattr(f, '_pin_ent', None)
             if ent is not None:
                 self._pin_comparisons(f, ent)
+                self._pin_ifelse(f, ent)
 
     def fn(self, q, nparams=None, unit=None, optional=False):
         """The unique function with this qualified name (AnalysisBroken if the anchor vanished)."""
